@@ -12,7 +12,9 @@ pub mod c07;
 pub mod c11;
 pub mod c12;
 pub mod c15;
+pub mod c16;
 pub mod c17;
+pub mod c18;
 pub mod c19;
 
 pub fn make(id: &str, run: &mut crate::run::Run) -> Option<Box<dyn Prop>> {
@@ -25,7 +27,9 @@ pub fn make(id: &str, run: &mut crate::run::Run) -> Option<Box<dyn Prop>> {
 		"C11" => Some(Box::new(c11::C11::new(run))),
 		"C12" => Some(Box::new(c12::C12::new(run))),
 		"C15" => Some(Box::new(c15::C15::new(run))),
+		"C16" => Some(Box::new(c16::C16::new(run))),
 		"C17" => Some(Box::new(c17::C17::new(run))),
+		"C18" => Some(Box::new(c18::C18::new(run))),
 		"C19" => Some(Box::new(c19::C19::new(run))),
 		"C05" => Some(Box::new(c05::C05::new(run))),
 		"C04" => Some(Box::new(c04::C04::new(run))),
@@ -38,7 +42,7 @@ pub fn make_for_replay(id: &str, run: &mut crate::run::Run) -> Option<Box<dyn Pr
 	make(id, run)
 }
 
-pub const ALL: &[&str] = &["C01", "C02", "C03", "C04", "C05", "C06", "C07", "C11", "C12", "C15", "C17", "C19"];
+pub const ALL: &[&str] = &["C01", "C02", "C03", "C04", "C05", "C06", "C07", "C11", "C12", "C15", "C16", "C17", "C18", "C19"];
 
 /// (runs, max steps per run) per tier
 pub fn budget(id: &str, thorough: bool) -> (u64, usize) {
@@ -71,6 +75,8 @@ pub fn rule(id: &str) -> String {
 		"C06" => "seeded histories (8-26 steps) bring 2-3 real wallets to a state; the generator's next natural wallet operation (init, lock, receive, finalize, invoice steps, cancel, refresh, scan, create account) is the target; from a directory snapshot it is run fault-free once (lists the persistence points visited: every LMDB batch commit pre/post incl. key-index bumps, stored-transaction file pre/post) and then once per point with a crash, once with a failing write, and for the stored-transaction file once per truncation length in {0,1,odd middle,len-1} (+12 sampled lengths in thorough); a case is one (pre-state digest, operation, point, fault kind / truncation length); non-trivial when the point was reached and the fault fired".into(),
 		"C12" => "seeded histories of every flow (sends, late locks, invoices, proofs, all wire encodings); after every step every file under every wallet directory (raw LMDB pages, stored transactions, seed files) and every emitted slate is searched for each seed (raw, hex, HEX, base64, JSON int array), each mnemonic, and sec_key / sec_nonce / initial_sec_key / initial_sec_nonce of every private context the simulator has read with observer privilege, in the same encodings; seed files are opened with right and wrong passwords (prefix, case, unicode, 300 chars, blank) through the wallet and through an independent PBKDF2-HMAC-SHA512(100)+ChaCha20-Poly1305 implementation; change_password is run with a crash / failing operation at every file-operation point and the written seed file cut to 0, 1, half, len-1 bytes; per wallet every public nonce and public excess on emitted slates is recorded against its slate id; a case is one scanned file or message / one password attempt / one lifecycle fault variant; non-trivial when a secret existed to look for, the password was wrong, or the fault fired".into(),
 		"C15" => "seeded histories of output-creating operations over several accounts (receive, change incl. multi-change, coinbase, invoice, build_output) with restarts, crashes and failing writes at LMDB commit / stored-tx points in between, and restores from seed followed by a scan; every output record ever committed is observed through the save hook (counted only when its batch commits) and keyed by (wallet, key path); a case is one committed output record or one (restore, account) next-path comparison".into(),
+		"C16" => "seeded multi-account histories incl. cancel-after-broadcast and reorgs, with the scan batch size knob drawn from {1,2,3,5,8,1000} so the PMMR batch loop crosses batch boundaries; then (a) a new wallet from the same mnemonic scanned from a drawn start height, (b) stored-state divergences injected into an up-to-date wallet (output record deleted, Unspent->Spent, Unspent->Locked, stale Unconfirmed record) followed by scan with delete_unconfirmed in {false,true}, (c) the same scan again; a case is one scan (restore/repair x delete flag x start x divergence kinds x batch crossed); non-trivial when a divergence was present, a restore found >=1 output, or a batch boundary was crossed".into(),
+		"C18" => "seeded histories in which a wallet receives, the payment is mined and reported confirmed, then a fork of depth 1..6 is aimed at / just above / just below the receiving block (with or without re-including the transaction, fork length depth+1..2), with refreshes and scans at arbitrary points, sends attempted while reverted, and re-mining; a case is one (scan or refresh, payment on chain?, entry type) observation; non-trivial when the fork removed a payment the wallet had reported confirmed".into(),
 		_ => "seeded histories".into(),
 	}
 }
